@@ -178,7 +178,13 @@ MirrorOf(s) ==
       top  |-> s.nlTop,
       data |-> [N |-> s.nlData, L |-> s.libData, D |-> s.defData, P |-> s.portData,
                 C |-> s.cabData, I |-> s.instData] ]
-C19_MirrorExact(s, m) == MirrorOf(s) = m
+(* the connections as the PINS report them (pin.wire of inner pins and of the outer pins stored on instances): the mirror, *)
+(* which was told "wire w lost pin r", has one set of connections - it must agree with both sides of the netlist          *)
+PinSideConn(s) ==
+    {[w |-> s.pinWire[q], r |-> IPin(q)] : q \in {qq \in IdsQ(s) : s.pinWire[qq] # None}}
+    \cup UNION {{[w |-> s.instPins[i][j].wire, r |-> OPin(i, s.instPins[i][j].ip)] :
+                    j \in {jj \in DOMAIN s.instPins[i] : s.instPins[i][jj].wire # None}} : i \in IdsI(s)}
+C19_MirrorExact(s, m) == MirrorOf(s) = m /\ PinSideConn(s) = m.conn
 C19_BeforeEffect(ann) == \A j \in DOMAIN ann : ~ann[j].late
 
 =============================================================================
